@@ -337,3 +337,36 @@ def out_header_text(c):
             else:
                 c.check('decimal_text', isinstance(out.value, (str, FmtStr, SStr)) and getattr(out.value, 'pytype', str) is str,
                         detail=repr(out.value))
+
+
+@obligation('C13.gen_http_headers', targets=['spyne.server.wsgi:_gen_http_headers'],
+            desc="for EVERY header text (symbolic): the list handed to start_response has one (name, value) pair per value -- a "
+                 "header set to a list or a tuple of values (e.g. several Set-Cookie) is expanded in order, a scalar is passed "
+                 "as it is; every pair is a 2-tuple whose members are the very objects given, so text stays text",
+            assumptions=["header mappings with two entries; each value a text, or a list/tuple of 0..2 texts"])
+def gen_http_headers(c):
+    from spyne.server import wsgi as W
+    kinds = ['str', 'list0', 'list1', 'list2', 'tuple0', 'tuple1', 'tuple2']
+    k1, k2 = c.choose(kinds, 'first_value_kind'), c.choose(kinds, 'second_value_kind')
+    texts = [c.str('v%d' % i) for i in range(4)]
+
+    def mk(kind, a, b):
+        if kind == 'str':
+            return a, [a]
+        n = int(kind[-1])
+        seq = [a, b][:n]
+        return (list(seq) if kind.startswith('list') else tuple(seq)), seq
+    h1, flat1 = mk(k1, texts[0], texts[1])
+    h2, flat2 = mk(k2, texts[2], texts[3])
+    from collections import OrderedDict
+    headers = OrderedDict([('Set-Cookie', h1), ('X-Other', h2)])
+    out = c.run(W._gen_http_headers, headers)
+    c.check('returns', out.returned, detail=repr(out))
+    if not out.returned:
+        return
+    want = [('Set-Cookie', v) for v in flat1] + [('X-Other', v) for v in flat2]
+    got = list(out.value)
+    c.check('one_pair_per_value', len(got) == len(want), detail=(k1, k2, len(got)))
+    c.check('pairs_are_2_tuples', all(type(p) is tuple and len(p) == 2 for p in got), detail=(k1, k2))
+    if len(got) == len(want) and all(type(p) is tuple and len(p) == 2 for p in got):
+        c.check('names_and_values_in_order', all(g[0] == w[0] and g[1] is w[1] for g, w in zip(got, want)), detail=(k1, k2))
